@@ -9,7 +9,7 @@ use crate::runner::*;
 use crate::tape::Tape;
 use crate::with_spec;
 
-pub const RULE: &str = "(specification, valid document with known-size masters only, junk run of 1-12 bytes drawn from the byte values that are not the first byte of any id of the specification, 0x00 included) \
+pub const RULE: &str = "(specification, valid document with known-size masters only, junk run of 1-12 bytes (one in five: 13-50; one in six all zero bytes, another sixth ending in a run of them) drawn from the byte values that are not the first byte of any id of the specification, 0x00 included) \
 × one buffer capacity from {default, 16, 17, 24, 32, 64, len}, one source (slice, or reads of 1-47 bytes) and one tolerance subset without InvalidTagIds (strict in half of the cases) × EVERY position between two consecutive tags as insertion point (exhaustive per document: after a leaf, after a master header, after the last child of a master when a sibling follows) + one junk run at a random non-boundary position. \
 From the reference encoder's layout the harness decides whether the precondition holds (the tag following the junk still fits every enclosing known-size master after the shift). Precondition true: items before the junk equal the undamaged parse (same offsets), \
 exactly one error, try_recover() is Ok, the remaining items equal the rest of the undamaged parse (non-End offsets shifted by the junk length, Ends of masters opened before the junk unchanged), then None. \
@@ -32,8 +32,12 @@ fn stage(i: &Input, c: &mut Case) -> Result<(), String> {
         first[id_bytes(e.id)[0] as usize] = true;
     }
     let allowed: Vec<u8> = (0..=255u8).filter(|b| !first[*b as usize]).collect();
-    let k = 1 + t.below(12);
-    let junk: Vec<u8> = (0..k).map(|_| if t.chance(1, 5) { 0 } else { allowed[t.below(allowed.len())] }).collect();
+    // mostly short runs; one in five is long enough (13-50 bytes) to outlast the 16-byte header look-ahead and a 16-byte buffer, and
+    // one in six consists of zero bytes only (a zero byte can never start an id) or ends in a run of them
+    let k = if t.chance(1, 5) { 13 + t.below(38) } else { 1 + t.below(12) };
+    let zeros = t.chance(1, 6);
+    let zero_tail = if zeros { 0 } else if t.chance(1, 6) { 1 + t.below(k) } else { 0 };
+    let junk: Vec<u8> = (0..k).map(|j| if zeros || j >= k - zero_tail { 0 } else if t.chance(1, 5) { 0 } else { allowed[t.below(allowed.len())] }).collect();
     let rand_pos = t.below(bytes.len().max(1));
     let capacity = match t.weighted(&[4, 4, 1]) {
         0 => None,
@@ -55,6 +59,8 @@ fn stage(i: &Input, c: &mut Case) -> Result<(), String> {
     };
     c.label_if(tolerate != 0, "tolerant_configuration");
     c.label_if(capacity.is_some(), "small_capacity");
+    c.label_if(k >= 16, "junk_of_16_bytes_or_more");
+    c.label_if(zeros || zero_tail > 0, "junk_ends_in_zero_bytes");
     c.label_if(chunk > 0, "chunked_source");
     c.label(if d.spec.is_rich() { "spec_macro_derived" } else { "spec_generated" });
     c.key(&(&bytes, &junk));
